@@ -124,6 +124,7 @@ def gen_sheet(rng):
     spec['n_id'] = rng.choice([1, 1, 1, 2, 2, 0])
     spec['range_kind'] = rng.choice(['set', 'set', 'dict', 'none'])
     spec['have_opt'] = rng.random() < 0.5
+    spec['rule_objects'] = rng.choice([None, None, None, 'some', 'all'])
     spec['ladder'] = rng.random() < 0.4
     spec['stop_on'] = rng.choice(["blank all", "blank all", "blank first"])
     lead = rng.randint(0, 1) if spec['stop_on'] == "blank all" else 0
@@ -222,6 +223,19 @@ def make_rules(spec):
         rules['marks'] = ('*', X.CellRangeDict(X.cell_str))
     else:
         rules['marks'] = None
+    if spec.get('rule_objects'):
+        # the same rules given as ready-made rule objects (also a callable default, an external attribute)
+        as_obj = {}
+        for attr, r in rules.items():
+            if r is None:
+                as_obj[attr] = X.XlsRecordAttrReadRules(attr, None, None, default_val=None)
+            elif len(r) == 3:
+                as_obj[attr] = X.XlsRecordAttrReadRules(attr, r[0], r[1], default_val=(lambda: 'DFLT'))
+            elif spec['rule_objects'] == 'all' or attr in ('key', 'num'):
+                as_obj[attr] = X.XlsRecordAttrReadRules(attr, r[0], r[1])
+            else:
+                as_obj[attr] = r
+        rules = as_obj
     return rules
 
 
